@@ -419,6 +419,7 @@ class DefaultObj:
 
 
 DEFAULT_OBJ = DefaultObj()
+DEFAULT_LIST = ['default-list-item']
 
 
 class ConstObj:
@@ -436,9 +437,27 @@ def denied_fn(*a, **k):
   raise AssertionError('denied_fn must never be called')
 
 
+class EqHostile(Plain):
+  """A dict-based object whose comparison operators refuse foreign operands
+  (like array types do)."""
+
+  def __eq__(self, other):
+    if not isinstance(other, EqHostile):
+      raise TypeError('EqHostile can only be compared with its own kind')
+    return self is other
+
+  def __ne__(self, other):
+    if not isinstance(other, EqHostile):
+      raise TypeError('EqHostile can only be compared with its own kind')
+    return self is not other
+
+  __hash__ = object.__hash__
+
+
 def _register_serialization():
   from fiddle._src.experimental import serialization
   serialization.register_dict_based_object(Plain)
+  serialization.register_dict_based_object(EqHostile)
   serialization.register_constant('fsim.stubmod', 'CONST_OBJ',
                                   compare_by_identity=True)
 
